@@ -2,158 +2,36 @@
 """Translator: regenerates coq/Gen/*.v from /repo's working tree.
 
 Emits Coq *data* only (constants, tables, literal reply templates); never logic.
-Fails loudly (exit 2, message on stderr) when a site cannot be parsed: that is a
-broken tie and is reported by ./check like a broken proof.
+Fails loudly (exit 2, TRANSLATE-ERROR lines) when a site cannot be parsed: that is
+a broken tie and is reported by ./check like a broken proof.  One module per
+source area in tools/translators/, each exporting GENERATORS = {file: fn(repo)->text}.
 
-usage: translate.py <repo> <outdir>
+usage: translate.py <repo> <outdir> [GenFile.v ...]
 """
-import os, re, sys
-
-class TranslateError(Exception):
-    pass
-
-def read(repo, rel):
-    with open(os.path.join(repo, rel), encoding='latin-1') as f:
-        return f.read()
-
-def strip_comments(src):
-    src = re.sub(r'/\*.*?\*/', lambda m: re.sub(r'[^\n]', ' ', m.group(0)), src, flags=re.S)
-    src = re.sub(r'//[^\n]*', '', src)
-    return src
-
-def func_body(src, name, rel):
-    """text of the definition of function `name` (from its header to the matching brace)"""
-    m = re.search(r'^(?:static\s+)?[A-Za-z_][\w \t\*]*\n' + re.escape(name) + r'\s*\([^)]*\)\s*\{', src, flags=re.M)
-    if not m:
-        m = re.search(r'^[A-Za-z_][\w \t\*]*\s+\**' + re.escape(name) + r'\s*\([^)]*\)\s*\{', src, flags=re.M)
-    if not m:
-        raise TranslateError('%s: function %s not found' % (rel, name))
-    i = m.end()
-    depth = 1
-    while depth and i < len(src):
-        c = src[i]
-        if c == '{': depth += 1
-        elif c == '}': depth -= 1
-        elif c == '"':
-            i += 1
-            while src[i] != '"':
-                if src[i] == '\\': i += 1
-                i += 1
-        elif c == "'":
-            i += 1
-            while src[i] != "'":
-                if src[i] == '\\': i += 1
-                i += 1
-        i += 1
-    return src[m.start():i]
-
-def one(pattern, text, what, flags=0):
-    ms = re.findall(pattern, text, flags)
-    if len(ms) != 1:
-        raise TranslateError('%s: expected exactly one match of /%s/, found %d' % (what, pattern, len(ms)))
-    return ms[0]
-
-def allsame(pattern, text, what, n=None):
-    ms = re.findall(pattern, text)
-    if not ms or (n is not None and len(ms) != n):
-        raise TranslateError('%s: expected %s matches of /%s/, found %d' % (what, n, pattern, len(ms)))
-    if len(set(ms)) != 1:
-        raise TranslateError('%s: matches of /%s/ disagree: %r' % (what, pattern, ms))
-    return ms[0]
-
-def c_unescape(lit):
-    """bytes of a C string literal body (without quotes)"""
-    out = []
-    i = 0
-    simple = {'n': 10, 'r': 13, 't': 9, '0': 0, '\\': 92, '"': 34, "'": 39, 'a': 7, 'b': 8, 'f': 12, 'v': 11}
-    while i < len(lit):
-        c = lit[i]
-        if c == '\\':
-            i += 1
-            e = lit[i]
-            if e == 'x':
-                j = i + 1
-                while j < len(lit) and lit[j] in '0123456789abcdefABCDEF':
-                    j += 1
-                out.append(int(lit[i+1:j], 16) & 255)
-                i = j
-                continue
-            if e in '01234567':
-                j = i
-                while j < len(lit) and j < i + 3 and lit[j] in '01234567':
-                    j += 1
-                out.append(int(lit[i:j], 8) & 255)
-                i = j
-                continue
-            if e not in simple:
-                raise TranslateError('unknown escape \\%s' % e)
-            out.append(simple[e])
-        else:
-            out.append(ord(c))
-        i += 1
-    return out
-
-def coq_bytes(bs):
-    return '[' + '; '.join(str(b) for b in bs) + ']%N'
-
-HEADER = '(* GENERATED by tools/translate.py from %s -- do not edit; rewritten on every check run *)\nFrom Coq Require Import List NArith.\nImport ListNotations.\n\n'
-
-def write_if_changed(path, text):
-    try:
-        with open(path) as f:
-            if f.read() == text:
-                return False
-    except FileNotFoundError:
-        pass
-    with open(path, 'w') as f:
-        f.write(text)
-    return True
-
-# ---------------------------------------------------------------- netio.c
-def gen_netio(repo):
-    rel = 'lib/netio.c'
-    src = strip_comments(read(repo, rel))
-    nw = func_body(src, 'net_writen', rel)
-    c = {}
-    c['NW_MSG'] = one(r'char\s+msg\[(\d+)\]\s*;', nw, 'net_writen msg[]')
-    c['NW_FLUSH_MARGIN'] = one(r'len\s*\+\s*l\s*>\s*sizeof\(msg\)\s*-\s*(\d+)', nw, 'net_writen flush test')
-    c['NW_LONG_ADD'] = one(r'if\s*\(\s*l\s*\+\s*(\d+)\s*>\s*sizeof\(msg\)\s*\)', nw, 'net_writen long-part test')
-    c['NW_WIN_MARGIN'] = one(r'while\s*\(\s*l\s*>\s*off\s*\+\s*sizeof\(msg\)\s*-\s*(\d+)\s*\)', nw, 'net_writen outer while')
-    c['NW_SCAN_MARGIN'] = one(r'nsp\s*-\s*s\[i\]\s*-\s*off\s*<\s*sizeof\(msg\)\s*-\s*(\d+)', nw, 'net_writen inner while')
-    c['NW_BRUTE_MARGIN'] = one(r'm\s*=\s*sizeof\(msg\)\s*-\s*(\d+)\s*;', nw, 'net_writen brute-force split')
-    c['NW_OFF_BACK'] = one(r'off\s*\+=\s*m\s*-\s*(\d+)\s*;', nw, 'net_writen off advance')
-    c['NW_HDR'] = one(r'memcpy\(\s*msg\s*\+\s*(\d+)\s*,\s*s\[i\]\s*\+\s*off\s*,\s*m\s*\)', nw, 'net_writen memcpy dest')
-    c['NW_LEN_RESET'] = one(r'\n\s*len\s*=\s*(\d+)\s*;', nw, 'net_writen len reset')
-    # structural facts the hand model relies on (presence tests; their absence is a broken tie)
-    for pat, what in [
-        (r"msg\[3\]\s*=\s*'-'\s*;", "continuation mark msg[3]='-'"),
-        (r"msg\[len\+\+\]\s*=\s*'\\r'\s*;\s*msg\[len\+\+\]\s*=\s*'\\n'\s*;", 'CRLF append'),
-        (r"msg\[3\]\s*=\s*c\s*;", 'restore of msg[3]'),
-        (r"strchr\(\s*s\[i\]\s*\+\s*off\s*,\s*' '\s*\)", 'blank search from off'),
-    ]:
-        if not re.search(pat, nw):
-            raise TranslateError('net_writen: %s not found' % what)
-    lb = one(r'static\s+char\s+lineinbuf\[(\d+)\]\s*;', src, 'lineinbuf size')
-    c['LINEINBUF'] = lb
-    out = HEADER % rel
-    for k, v in c.items():
-        out += 'Definition %s : nat := %s.\n' % (k, v)
-    return out
-
-GENERATORS = {
-    'GenNetio.v': gen_netio,
-}
+import glob, importlib, os, sys
+HERE = os.path.dirname(os.path.abspath(__file__))
+sys.path.insert(0, HERE)
+sys.path.insert(0, os.path.join(HERE, 'translators'))
+from trlib import TranslateError, write_if_changed
 
 def main():
     repo, outdir = sys.argv[1], sys.argv[2]
-    only = sys.argv[3:] or list(GENERATORS)
+    gens = {}
+    for f in sorted(glob.glob(os.path.join(HERE, 'translators', '*.py'))):
+        m = importlib.import_module(os.path.basename(f)[:-3])
+        gens.update(m.GENERATORS)
+    only = sys.argv[3:] or list(gens)
     os.makedirs(outdir, exist_ok=True)
     rc = 0
     for name in only:
         try:
-            text = GENERATORS[name](repo)
+            text = gens[name](repo)
         except TranslateError as e:
             sys.stderr.write('TRANSLATE-ERROR %s: %s\n' % (name, e))
+            rc = 2
+            continue
+        except Exception as e:
+            sys.stderr.write('TRANSLATE-ERROR %s: %s: %s\n' % (name, type(e).__name__, e))
             rc = 2
             continue
         write_if_changed(os.path.join(outdir, name), text)
